@@ -2,41 +2,141 @@
 use crate::gen::{mutate, G};
 use crate::pp::*;
 use crate::util::*;
+use std::collections::HashSet;
 
-fn limits_for(ctx: &mut Ctx, src: &str) {
-    let Ok(unl) = run_parser("doc", None, 1_000_000, src) else { ctx.fail("parse-document-panic", src, "unlimited run panicked"); return };
-    let n_items = crate::p03::lex_items(src, None).map(|v| v.len()).unwrap_or(0);
+struct Env { schema: apollo_compiler::validation::Valid<apollo_compiler::Schema> }
+
+/// byte indices of what the lexer itself refuses in `src` (these errors are pushed unconditionally, also after a limit)
+fn lexer_error_indices(src: &str) -> HashSet<usize> {
+    apollo_parser::Lexer::new(src).filter_map(|r| r.err()).map(|e| e.index()).collect()
+}
+
+/// after the first limit error (either limit) only lexer errors and limit errors may follow — never a syntax error
+fn check_after_limit(ctx: &mut Ctx, label: &str, p: &Parsed, lexerr: &HashSet<usize>) {
+    if let Some(pos) = p.errors.iter().position(|e| e.0 == 'L') {
+        for e in &p.errors[pos + 1..] {
+            if e.0 == 'L' || (e.0 == 'E' && lexerr.contains(&e.1)) { continue; }
+            ctx.fail("syntax-error-after-limit", label, &format!("{:?}", p.errors));
+            break;
+        }
+    }
+}
+
+/// the compiler's figures after parsing `src` through the wrapper of `entry` must be the parser's high-water marks
+fn compiler_call(env: &Env, cp: &mut apollo_compiler::parser::Parser, method: &str, src: &str) -> Result<(), String> {
+    catch(|| match method {
+        "ast" => { let _ = cp.parse_ast(src, "d.graphql"); }
+        "schema" => { let _ = cp.parse_schema(src, "d.graphql"); }
+        "schema-builder" => { let mut b = apollo_compiler::Schema::builder(); cp.parse_into_schema_builder(src, "d.graphql", &mut b); }
+        "exec" => { let _ = cp.parse_executable(&env.schema, src, "d.graphql"); }
+        "mixed" => { let _ = cp.parse_mixed_validate(src, "d.graphql"); }
+        "fieldset" => { let _ = cp.parse_field_set(&env.schema, apollo_compiler::name!("Query"), src, "d.graphql"); }
+        _ => { let _ = cp.parse_type(src, "d.graphql"); }
+    })
+}
+fn entry_of(method: &str) -> &'static str { match method { "fieldset" => "sel", "type" => "ty", _ => "doc" } }
+fn method_of(entry: &str) -> &'static str { match entry { "sel" => "fieldset", "ty" => "type", _ => "ast" } }
+
+/// one compiler `Parser` value used for a whole history of calls: after every call the figures are those of that call
+fn compiler_history(ctx: &mut Ctx, env: &Env, tl: Option<usize>, rl: Option<usize>, history: &[(&str, &str)]) {
+    let mut cp = apollo_compiler::parser::Parser::new();
+    if let Some(r) = rl { cp = cp.recursion_limit(r); }
+    if let Some(t) = tl { cp = cp.token_limit(t); }
+    for (step, (method, src)) in history.iter().enumerate() {
+        let label = format!("compiler tl={tl:?} rl={rl:?} history={:?} step={step}", history);
+        if let Err(m) = compiler_call(env, &mut cp, method, src) { ctx.fail("compiler-parse-panic", &label, &m); return; }
+        let Ok(p) = run_parser(entry_of(method), tl, rl.unwrap_or(500), src) else { ctx.fail("parse-document-panic", &label, "panic"); return };
+        ctx.stat("compiler_figure_checks");
+        if cp.recursion_reached() != p.rec_high || cp.tokens_reached() != p.tok_high {
+            ctx.fail("compiler-reached-figures", &label, &format!("compiler ({}, {}) vs parser ({}, {})", cp.recursion_reached(), cp.tokens_reached(), p.rec_high, p.tok_high));
+        }
+        if step > 0 { ctx.nontrivial(&format!("hist:{label}")); }
+    }
+}
+
+fn limits_for(ctx: &mut Ctx, env: &Env, src: &str) { limits_for_entry(ctx, env, "doc", src) }
+
+fn limits_for_entry(ctx: &mut Ctx, env: &Env, entry: &str, src: &str) {
+    let Ok(unl) = run_parser(entry, None, 1_000_000, src) else { ctx.fail("parse-document-panic", src, "unlimited run panicked"); return };
+    let all_items = crate::p03::lex_items(src, None).map(|v| v.len()).unwrap_or(0);
+    // a document is lexed to its end; the standalone entry points stop at the first token after their construct, so what
+    // they "consume" is what the unlimited run asked of the lexer
+    if entry == "doc" && unl.tok_high != all_items { ctx.fail("document-does-not-consume-all-items", src, &format!("{} of {all_items}", unl.tok_high)); }
+    if unl.tok_high > all_items { ctx.fail("token-high-water", src, &format!("{} of {all_items}", unl.tok_high)); }
+    let n_items = if entry == "doc" { all_items } else { unl.tok_high };
+    let lexerr = lexer_error_indices(src);
     let depth = unl.depth;
-    if depth != unl.rec_high { ctx.fail("rec-high-vs-tree-depth", src, &format!("recursion high {} vs nesting depth of the tree {}", unl.rec_high, depth)); }
+    ctx.stat(&format!("limit_sweeps:{entry}"));
+    ctx.stat(&format!("depth:{}", depth.min(9)));
+    if depth != unl.rec_high { ctx.fail("rec-high-vs-tree-depth", &format!("entry={entry} {src}"), &format!("recursion high {} vs nesting depth of the tree {}", unl.rec_high, depth)); }
+    let tag = if entry == "doc" { String::new() } else { format!("entry={entry} ") };
     // token limits: every n from 0 to |items|+1
     for n in 0..=n_items + 1 {
-        let r = case(ctx, "doc", Some(n), 500, src);
-        let Ok(p) = r else { ctx.fail("parse-document-panic", &format!("tl={n} {src}"), "panic"); continue };
+        let r = case(ctx, entry, Some(n), 500, src);
+        let Ok(p) = r else { ctx.fail("parse-document-panic", &format!("{tag}tl={n} {src}"), "panic"); continue };
         let has_limit = p.errors.iter().any(|e| e.0 == 'L');
-        if has_limit != (n_items > n) { ctx.fail("token-limit-iff", &format!("tl={n} {src}"), &format!("limit error={has_limit}, unlimited stream has {n_items} items")); }
+        if has_limit != (n_items > n) { ctx.fail("token-limit-iff", &format!("{tag}tl={n} {src}"), &format!("limit error={has_limit}, unlimited stream has {n_items} items")); }
         if !src.starts_with(&p.text) {
-            ctx.fail(if p.loss == Loss::TypePositionDropOnly { "cst-drops-token-in-type-position" } else { "limited-tree-not-prefix" }, &format!("tl={n} {src}"), &format!("tree text {:?}", p.text));
+            ctx.fail(if p.loss == Loss::TypePositionDropOnly { "cst-drops-token-in-type-position" } else { "limited-tree-not-prefix" }, &format!("{tag}tl={n} {src}"), &format!("tree text {:?}", p.text));
         }
         if let Some(pos) = p.errors.iter().position(|e| e.0 == 'L') {
-            if pos + 1 != p.errors.len() { ctx.fail("error-after-token-limit", &format!("tl={n} {src}"), &format!("{:?}", p.errors)); }
+            if pos + 1 != p.errors.len() { ctx.fail("error-after-token-limit", &format!("{tag}tl={n} {src}"), &format!("{:?}", p.errors)); }
         }
-        if p.tok_high > n + 1 { ctx.fail("token-high-water", &format!("tl={n} {src}"), &format!("high {} > n+1", p.tok_high)); }
-        if has_limit { ctx.nontrivial(&format!("{n}:{}", p.sexpr)); }
+        if p.tok_high > n + 1 { ctx.fail("token-high-water", &format!("{tag}tl={n} {src}"), &format!("high {} > n+1", p.tok_high)); }
+        // exactly: n+1 items were asked of the lexer when the limit fired, all of them otherwise
+        if p.tok_high != (n + 1).min(n_items) { ctx.fail("token-high-water", &format!("{tag}tl={n} {src}"), &format!("high {} but {} of {n_items} items allowed", p.tok_high, n)); }
+        if has_limit { ctx.nontrivial(&format!("{entry}{n}:{}", p.sexpr)); }
     }
     // recursion limits: every r from 0 to depth+1
     for r in 0..=depth + 1 {
-        let res = case(ctx, "doc", None, r, src);
-        let Ok(p) = res else { ctx.fail("parse-document-panic", &format!("rl={r} {src}"), "panic"); continue };
+        let res = case(ctx, entry, None, r, src);
+        let Ok(p) = res else { ctx.fail("parse-document-panic", &format!("{tag}rl={r} {src}"), "panic"); continue };
         let has_limit = p.errors.iter().any(|e| e.0 == 'L');
-        if has_limit != (depth > r) { ctx.fail("recursion-limit-iff", &format!("rl={r} {src}"), &format!("limit error={has_limit}, nesting depth {depth}")); }
-        if has_limit != (p.rec_high > r) { ctx.fail("recursion-limit-same-run", &format!("rl={r} {src}"), &format!("limit error={has_limit}, high {}", p.rec_high)); }
-        if p.rec_high > r + 1 { ctx.fail("recursion-high-water", &format!("rl={r} {src}"), &format!("high {}", p.rec_high)); }
-        if has_limit { ctx.nontrivial(&format!("r{r}:{}", p.sexpr)); }
+        if has_limit != (depth > r) { ctx.fail("recursion-limit-iff", &format!("{tag}rl={r} {src}"), &format!("limit error={has_limit}, nesting depth {depth}")); }
+        if has_limit != (p.rec_high > r) { ctx.fail("recursion-limit-same-run", &format!("{tag}rl={r} {src}"), &format!("limit error={has_limit}, high {}", p.rec_high)); }
+        if p.rec_high > r + 1 { ctx.fail("recursion-high-water", &format!("{tag}rl={r} {src}"), &format!("high {}", p.rec_high)); }
+        if p.rec_high != depth.min(r + 1) { ctx.fail("recursion-high-water", &format!("{tag}rl={r} {src}"), &format!("high {} but depth {depth}", p.rec_high)); }
+        if p.errors.iter().filter(|e| e.0 == 'L').count() > 1 { ctx.fail("recursion-limit-reported-twice", &format!("{tag}rl={r} {src}"), &format!("{:?}", p.errors)); }
+        check_after_limit(ctx, &format!("{tag}rl={r} {src}"), &p, &lexerr);
+        // (no token limit here: a document's tree is the whole text, a standalone entry point's a prefix)
+        let cut = if entry == "doc" { p.text != src } else { !src.starts_with(&p.text) };
+        if cut && p.loss != Loss::TypePositionDropOnly { ctx.fail("limited-tree-not-prefix", &format!("{tag}rl={r} {src}"), &format!("tree text {:?}", p.text)); }
+        if has_limit { ctx.nontrivial(&format!("{entry}r{r}:{}", p.sexpr)); }
         // the compiler reports the parser's high-water marks
         let mut cp = apollo_compiler::parser::Parser::new().recursion_limit(r);
-        let _ = cp.parse_ast(src, "d.graphql");
+        if let Err(m) = compiler_call(env, &mut cp, method_of(entry), src) { ctx.fail("compiler-parse-panic", &format!("{tag}rl={r} {src}"), &m); continue; }
         if cp.recursion_reached() != p.rec_high || cp.tokens_reached() != p.tok_high {
-            ctx.fail("compiler-reached-figures", &format!("rl={r} {src}"), &format!("compiler ({}, {}) vs parser ({}, {})", cp.recursion_reached(), cp.tokens_reached(), p.rec_high, p.tok_high));
+            ctx.fail("compiler-reached-figures", &format!("{tag}rl={r} {src}"), &format!("compiler ({}, {}) vs parser ({}, {})", cp.recursion_reached(), cp.tokens_reached(), p.rec_high, p.tok_high));
+        }
+    }
+}
+
+/// every (token limit, recursion limit) pair of one input
+fn limit_pairs(ctx: &mut Ctx, entry: &str, src: &str) {
+    let Ok(unl) = run_parser(entry, None, 1_000_000, src) else { return };
+    let n_items = if entry == "doc" { crate::p03::lex_items(src, None).map(|v| v.len()).unwrap_or(0) } else { unl.tok_high };
+    let lexerr = lexer_error_indices(src);
+    for r in 0..=unl.depth + 1 {
+        // a standalone entry point that gives up on the recursion limit stops lexing early: what the run without a token limit asks for
+        let n_items = if entry == "doc" { n_items } else { run_parser(entry, None, r, src).map(|p| p.tok_high).unwrap_or(0) };
+        for n in 0..=n_items + 1 {
+            let label = format!("entry={entry} tl={n} rl={r} {src}");
+            let Ok(p) = case(ctx, entry, Some(n), r, src) else { ctx.fail("parse-document-panic", &label, "panic"); continue };
+            ctx.stat("limit_pair_cases");
+            let nl = p.errors.iter().filter(|e| e.0 == 'L').count();
+            let tok_hit = n_items > n;
+            if tok_hit {
+                // the token-limit error is the last error; a second limit error can only be the recursion one
+                if p.errors.last().map(|e| e.0) != Some('L') { ctx.fail("token-limit-iff", &label, &format!("{:?}", p.errors)); }
+                if nl > 2 || (nl == 2 && p.rec_high <= r) { ctx.fail("limit-errors-wrong", &label, &format!("{:?} high {}", p.errors, p.rec_high)); }
+            } else {
+                if nl > 1 || ((nl == 1) != (p.rec_high > r)) { ctx.fail("limit-errors-wrong", &label, &format!("{:?} high {}", p.errors, p.rec_high)); }
+            }
+            check_after_limit(ctx, &label, &p, &lexerr);
+            if !src.starts_with(&p.text) && p.loss != Loss::TypePositionDropOnly { ctx.fail("limited-tree-not-prefix", &label, &format!("tree text {:?}", p.text)); }
+            if p.tok_high != (n + 1).min(n_items) { ctx.fail("token-high-water", &label, &format!("high {}", p.tok_high)); }
+            if p.rec_high > r + 1 { ctx.fail("recursion-high-water", &label, &format!("high {}", p.rec_high)); }
+            if nl == 2 { ctx.nontrivial(&format!("pair:{n}:{r}:{}", p.sexpr)); }
         }
     }
 }
@@ -69,6 +169,8 @@ fn reached_history(ctx: &mut Ctx, steps: &[(u8, String)], rl: usize, tl: Option<
 }
 
 pub fn run(ctx: &mut Ctx) {
+    let env = Env { schema: apollo_compiler::Schema::parse_and_validate("type Query { a: Query b: Query c: Int f(x: Int): Query }", "s.graphql").unwrap() };
+    let env = &env;
     {
         let docs = ["{ a { b { c { d(x: [[1]]) } } } }", "{ a }", "", "type T { f: [[Int]] }", "{ a { b { c } } } # trailing comment", "query($v: [Int] = [1, [2]]) { a }", "\"", "{ a(x: {k: {l: 1}}) }"];
         let types = ["Int", "[[[Int!]]!]", "[", "Int ] ]", ""];
@@ -85,16 +187,89 @@ pub fn run(ctx: &mut Ctx) {
         for a in docs { for b in docs { reached_history(ctx, &[(0, a.to_string()), (0, b.to_string())], 500, None); } }
     }
     for s in ["{ a { b { c } } }", "{ a(x: [[1, [2]], {k: {l: [3]}}]) }", "query($v: [[Int!]]! = [[1]]) { a }", "type Query { field(arg1: Int, arg2: Int): Int }",
-              "{ a ...F ... on T { b } }", "\"", "{ a", "é", "", "{a(x:{a:{b:{c:1}}})}", "{a(x:[[[]]])}"] { limits_for(ctx, s); }
+              "{ a ...F ... on T { b } }", "\"", "{ a", "é", "", "{a(x:{a:{b:{c:1}}})}", "{a(x:[[[]]])}", "{a(x:[é])}", "{a(x:[é 1])}", "{a(x:{k:é})}", "{a(x:[[é]])}"] { limits_for(ctx, env, s); }
     let mut seqs = vec![];
     token_seqs(&["{", "}", "[", "]", "a", ":", "(", ")", "$", "...", "1"], if ctx.thorough { 5 } else { 4 }, |s| seqs.push(s.to_string()));
-    for s in &seqs { limits_for(ctx, s); }
+    for s in &seqs { limits_for(ctx, env, s); }
+
+    // ---- (audit G1) systematic families, the same on every seed — see pfam.rs ----
+    {
+        use crate::pfam::*;
+        let th = ctx.thorough;
+        // every shape of nested list / object values (ordered trees, each node a list or an object, with and without a scalar
+        // after the nested children) in every position that takes a value; a second definition follows in one position
+        let big = value_trees(if th { 5 } else { 4 });
+        let mid = value_trees(if th { 4 } else { 3 });
+        let small = value_trees(if th { 3 } else { 2 });
+        let mut n = 0u64;
+        for (i, pos) in VALUE_POS_ALL.iter().enumerate() {
+            let trees = if i == 0 { &big } else if i < 6 { &mid } else { &small };
+            for v in trees { limits_for(ctx, env, &pos.replace('§', v)); n += 1; }
+        }
+        ctx.stat_n("family:value-tree-x-position", n);
+        // every shape of nested selection sets (field / inline fragment / inline fragment with type condition), alone and followed by a
+        // second operation (the counter must be back at 0 between definitions)
+        let sels = selection_trees(if th { 4 } else { 3 }, 3);
+        for (i, s) in sels.iter().enumerate() {
+            limits_for(ctx, env, s);
+            if i % 3 == 0 { limits_for(ctx, env, &format!("{s} query Q {s}")); }
+            if i % 3 == 1 { limits_for(ctx, env, &format!("fragment F on T {s}")); }
+        }
+        ctx.stat_n("family:selection-trees", sels.len() as u64);
+        // every list type up to depth 3 (4) in every position that takes a type
+        let tys = types(if th { 4 } else { 3 });
+        for pos in TYPE_POS { for t in &tys { limits_for(ctx, env, &pos.replace('§', t)); } }
+        ctx.stat_n("family:type-x-position", (tys.len() * TYPE_POS.len()) as u64);
+        // look-ahead sites (description → keyword, extend → keyword, `...` → on / name, alias) under every token limit
+        for d in LOOKAHEAD_DOCS { limits_for(ctx, env, d); }
+        ctx.stat_n("family:lookahead", LOOKAHEAD_DOCS.len() as u64);
+        // lexical errors / comments / an unterminated string in every gap of three small nested documents
+        let mut gaps = vec![];
+        for d in ["{ a(x: [1, {k: 2}]) { b } }", "type T { f(a: [Int] = [1]): [T] }", "query($v: [T] = {k: [1]}) { ... { a } }"] { fill_gaps(d, &["é", "\"", "#c\n"], |s| gaps.push(s)); }
+        for s in &gaps { limits_for(ctx, env, s); }
+        ctx.stat_n("family:lexical-error-in-every-gap", gaps.len() as u64);
+        // the other two entry points: exhaustive short token sequences
+        let mut sel = vec![];
+        token_seqs(&["{", "}", "a", ":", "...", "on", "(x:[1])", "@d", "é"], if th { 4 } else { 3 }, |s| sel.push(s.to_string()));
+        for s in &sel { limits_for_entry(ctx, env, "sel", s); }
+        for s in ["a { b { c } }", "{ a { b { c } } }", "a(x: [[1]]) { b }", "... on T { a { b } }", " { a }", "a { b } }", "{ a } b"] { limits_for_entry(ctx, env, "sel", s); }
+        for s in selection_trees(2, 3) { limits_for_entry(ctx, env, "sel", &s); limits_for_entry(ctx, env, "sel", s.trim_start_matches("{ ").trim_end_matches(" }")); }
+        let mut ty = vec![];
+        for_all_strings(&["A", "[", "]", "!", " ", "é"], if th { 5 } else { 4 }, |s| ty.push(s.to_string()));
+        for s in &ty { limits_for_entry(ctx, env, "ty", s); }
+        for t in types(4) { limits_for_entry(ctx, env, "ty", &t); }
+        ctx.stat_n("family:other-entry-points", (sel.len() + ty.len()) as u64);
+        // every (token limit, recursion limit) PAIR for one rich instance of every definition kind
+        for d in RICH { limit_pairs(ctx, "doc", d); }
+        for d in ["{ a { b { c } } } é", "{ a(x: [[é]]) }", "{ a { b", "type T { f: [[[Int", "{a(x:{k:{l:{m:1}}})}"] { limit_pairs(ctx, "doc", d); }
+        for d in ["a { b { c } }", "{ a { b } } c"] { limit_pairs(ctx, "sel", d); }
+        for d in ["[[[A!]!]!]!", "[[A] B"] { limit_pairs(ctx, "ty", d); }
+        // the compiler's figures: every parse method, with a token limit and/or a recursion limit, and HISTORIES on one
+        // `Parser` value (the figures are those of the last call, whatever came before)
+        let calls: [(&str, &str); 14] = [("ast", "{ a { b { c { d } } } }"), ("ast", "{ a }"), ("ast", "{ a(x: [[[1]]]) }"), ("ast", "{ a b c d e f g h i j k l }"), ("ast", ""),
+            ("schema", "type Query { f(a: [[[Int]]] = [[[1]]]): Int }"), ("schema-builder", "scalar S"), ("exec", "{ a { b { c } } }"), ("exec", "{ c }"),
+            ("mixed", "type Query { a: Query } { a { a { a { a { a } } } } }"), ("fieldset", "a { b { c } }"), ("fieldset", "c"), ("type", "[[[[Int]]]]"), ("type", "Int")];
+        let mut hist = 0u64;
+        for (tl, rl) in [(None, None), (None, Some(2)), (Some(6), None), (Some(9), Some(1)), (Some(0), Some(0))] {
+            for a in calls { for b in calls { compiler_history(ctx, env, tl, rl, &[a, b]); hist += 1; } }
+            compiler_history(ctx, env, tl, rl, &calls);
+            let rev: Vec<(&str, &str)> = calls.iter().rev().cloned().collect();
+            compiler_history(ctx, env, tl, rl, &rev);
+        }
+        ctx.stat_n("family:compiler-histories", hist);
+        for (i, d) in RICH.iter().enumerate() {
+            let n = crate::p03::lex_items(d, None).map(|v| v.len()).unwrap_or(0);
+            let m = ["ast", "schema", "exec", "mixed", "schema-builder"][i % 5];
+            for tl in [Some(0), Some(1), Some(n / 2), Some(n - 1), Some(n), Some(n + 1), None] { for rl in [Some(0), Some(1), Some(2), None] { compiler_history(ctx, env, tl, rl, &[(m, d)]); } }
+        }
+    }
+
     let n = if ctx.thorough { 4000 } else { 400 };
     let mut cov = std::collections::BTreeMap::new();
     for i in 0..n {
         let doc = { let mut g = G { r: &mut ctx.rng, depth: 0, cov: &mut cov }; g.definition() };
         let src = if i % 3 == 0 { mutate(&mut ctx.rng, &doc) } else { doc };
-        if src.len() < 400 { limits_for(ctx, &src); }
+        if src.len() < 400 { limits_for(ctx, env, &src); }
     }
     // lexer-only limit stream
     let mut short = vec![];
